@@ -12,7 +12,8 @@ CLS = [
     ("shared-simulator-data-race", r"data race"),
     ("superlinear-search", r"^C05 "),
     ("maxliterals-truncation", r"maxlits|maxlen|^C17 \\d:\\d"),
-    ("illformed-utf8-not-consumed", r"^C15 \. |\(tx\|lo\|md\)"),
+    ("casefold-non-ascii", r"\(\?i\)"),
+    ("illformed-utf8-not-consumed", r"^C15 |\(tx\|lo\|md\)"),
     ("nonword-boundary-multibyte", r"^C\d\d \\B "),
     ("casefold-non-ascii", r"\(\?i\)"),
     ("literalprefix-differs", r"LiteralPrefix"),
